@@ -27,6 +27,7 @@ PROP_MODULES = {
             ("C01Ext", r"pow|inv|trace"), ("CodeTies", r"bitProd_tie|bitQuoRem_tie"), ("CodeTies2", r"prime_inv")],
     "C04": [("C04", r".*"), ("C04Full", r".*")],
     "C08": [("C08", r".*"), ("CodeTies", r"addDegs_tie|subtractDegs_tie")],
+    "C14": [("C14", r".*"), ("C14Full", r".*")],
     "C11": [("C11", r".*"), ("C11Full", r".*")],
     "C12": [("C12", r".*"), ("C12Full", r".*")],
     "C13": [("C13", r".*"), ("C13Full", r".*")],
